@@ -117,3 +117,10 @@ claim("C13", "differential monitor: xr_reproject on dask-backed data (computed u
       "across seams; disjoint rasters give all-fill without an exception. ~270 cases quick / 5.6e4 thorough over 10 same-CRS kinds + cross-CRS, 1-pixel and non-dividing chunkings, 6 dtypes, "
       "time axis, nearest/bilinear, ~240 distinct execution orders per quick run.",
       _TB + " GDAL is shared by both paths.", "DESIGN.md 5/C13")
+
+claim("C09", "history monitor with tracker index vectors: after every step the GeoBox recovered through .odc must place each remaining element where its original pixel was (numpy matrices) and agree with the labels; round-trip and reprojection outputs compared with the requested GeoBox",
+      "Per history (1-6 steps of strided/reversed slicing, arithmetic, comparison, astype, pickle, copy; 7 affine families incl. rotated/sheared, 1xN/Nx1/1x1 with CRS, 3 ranks, numpy and dask) "
+      "positions are checked for every remaining pixel and labels for axis-aligned boxes; wrap -> .odc.geobox must return shape, CRS and corners to 1e-6 px (GCP boxes structurally); "
+      "xr_reproject / .odc.reproject of DataArrays and Datasets to GeoBoxes, CRS strings and 'utm' must yield the destination GeoBox on the container and each variable, CRS included, "
+      "without crs/crs_wkt/grid_mapping/gcps/epsg attrs and with non-spatial variables passed through. ~1.5e3 histories + 350 reprojections quick.",
+      _TB + " Bit-equality of recovered transforms is logged, not demanded (labels are floats).", "DESIGN.md 5/C09")
